@@ -1,0 +1,23 @@
+//! Verification hooks: a per-thread log of the hash-derived challenges of the inner-product argument
+//! (`compute_random_oracle_challenge`), which never pass through the caller's sponge.
+//! Compiled only with `--cfg arkworks_rs_poly_commit_verif`; add-only.
+use ark_serialize::CanonicalSerialize;
+use std::cell::RefCell;
+use std::vec::Vec;
+
+std::thread_local! {
+    static LOG: RefCell<Vec<Vec<u8>>> = RefCell::new(Vec::new());
+}
+
+/// Append one challenge (compressed serialization) to this thread's log.
+pub(crate) fn record_challenge<F: CanonicalSerialize>(c: &F) {
+    let mut bytes = Vec::new();
+    if c.serialize_compressed(&mut bytes).is_ok() {
+        LOG.with(|l| l.borrow_mut().push(bytes));
+    }
+}
+
+/// Take (and clear) this thread's log of challenges, in the order they were computed.
+pub fn take_challenge_log() -> Vec<Vec<u8>> {
+    LOG.with(|l| core::mem::take(&mut *l.borrow_mut()))
+}
